@@ -12,7 +12,7 @@ import (
 // Workloads returns the real-SQLite workloads of a tier: every journal mode, small caches (spills,
 // multi-segment journals, repeated WAL frames), small and large pages, auto-vacuum, mode switches,
 // with and without a replica behind its own kernel mount.
-func Workloads(args *core.Args) []Workload {
+func Workloads(args *core.Args, props map[string]bool) []Workload {
 	s := args.Seed
 	ws := []Workload{
 		{JournalMode: "delete", PageSize: 4096, CacheSize: 10, Steps: 14, Seed: s*100 + 1, ModeSwitch: true, Replica: true},
@@ -28,6 +28,13 @@ func Workloads(args *core.Args) []Workload {
 				AutoVacuum: []string{"", "incremental", "full"}[(i+j)%3], Replica: (i+j)%2 == 0, Compress: j == 1, ModeSwitch: j != 1})
 		}
 	}
+	// databases that contain SQLite's lock page (64 KiB pages: a little over 1 GiB), a few minutes each
+	if props["C02"] || props["C04"] {
+		ws = append(ws, Workload{JournalMode: "delete", PageSize: 65536, CacheSize: 20, Seed: s*100 + 41, LockPage: true})
+	}
+	if props["C03"] || props["C01"] {
+		ws = append(ws, Workload{JournalMode: "wal", PageSize: 65536, CacheSize: 20, Seed: s*100 + 42, LockPage: true, Replica: true})
+	}
 	return ws
 }
 
@@ -41,7 +48,7 @@ func Stage(rep *core.Report, args *core.Args, props map[string]bool) {
 	}
 	t0 := time.Now()
 	ran, stmts, commits, other, hangs := 0, 0, 0, 0, 0
-	for i, w := range Workloads(args) {
+	for i, w := range Workloads(args, props) {
 		stop := make(chan struct{})
 		go func() { // the parent only waits: keep the watchdog informed
 			for {
@@ -53,7 +60,7 @@ func Stage(rep *core.Report, args *core.Args, props map[string]bool) {
 				}
 			}
 		}()
-		res, hung := RunIsolated(w, core.Scratch(fmt.Sprintf("t3-%d", i)), 5*time.Minute)
+		res, hung := RunIsolated(w, core.Scratch(fmt.Sprintf("t3-%d", i)), 15*time.Minute)
 		close(stop)
 		core.Beat("harness")
 		if res.Skipped != "" {
